@@ -78,6 +78,38 @@ BuiltinDirectives ==
                        [reason |-> Arg(Ty("String"), VS("No longer supported"))], FALSE)]
 
 ----------------------------------------------------------------------------
+\* Schema introspection types (October 2021, section 4.2), part of every schema
+IntroTypes ==
+  [__Schema |-> ObjT([description |-> Fld(Ty("String"), NoArgs), types |-> Fld(NN(Ls(NN(Ty("__Type")))), NoArgs),
+                      queryType |-> Fld(NN(Ty("__Type")), NoArgs), mutationType |-> Fld(Ty("__Type"), NoArgs),
+                      subscriptionType |-> Fld(Ty("__Type"), NoArgs), directives |-> Fld(NN(Ls(NN(Ty("__Directive")))), NoArgs)], {}),
+   __Type |-> ObjT([kind |-> Fld(NN(Ty("__TypeKind")), NoArgs), name |-> Fld(Ty("String"), NoArgs), description |-> Fld(Ty("String"), NoArgs),
+                    fields |-> Fld(Ls(NN(Ty("__Field"))), [includeDeprecated |-> Arg(Ty("Boolean"), VB(FALSE))]),
+                    interfaces |-> Fld(Ls(NN(Ty("__Type"))), NoArgs), possibleTypes |-> Fld(Ls(NN(Ty("__Type"))), NoArgs),
+                    enumValues |-> Fld(Ls(NN(Ty("__EnumValue"))), [includeDeprecated |-> Arg(Ty("Boolean"), VB(FALSE))]),
+                    inputFields |-> Fld(Ls(NN(Ty("__InputValue"))), NoArgs), ofType |-> Fld(Ty("__Type"), NoArgs),
+                    specifiedByURL |-> Fld(Ty("String"), NoArgs)], {}),
+   __Field |-> ObjT([name |-> Fld(NN(Ty("String")), NoArgs), description |-> Fld(Ty("String"), NoArgs),
+                     args |-> Fld(NN(Ls(NN(Ty("__InputValue")))), NoArgs), type |-> Fld(NN(Ty("__Type")), NoArgs),
+                     isDeprecated |-> Fld(NN(Ty("Boolean")), NoArgs), deprecationReason |-> Fld(Ty("String"), NoArgs)], {}),
+   __InputValue |-> ObjT([name |-> Fld(NN(Ty("String")), NoArgs), description |-> Fld(Ty("String"), NoArgs),
+                          type |-> Fld(NN(Ty("__Type")), NoArgs), defaultValue |-> Fld(Ty("String"), NoArgs)], {}),
+   __EnumValue |-> ObjT([name |-> Fld(NN(Ty("String")), NoArgs), description |-> Fld(Ty("String"), NoArgs),
+                         isDeprecated |-> Fld(NN(Ty("Boolean")), NoArgs), deprecationReason |-> Fld(Ty("String"), NoArgs)], {}),
+   __Directive |-> ObjT([name |-> Fld(NN(Ty("String")), NoArgs), description |-> Fld(Ty("String"), NoArgs),
+                         locations |-> Fld(NN(Ls(NN(Ty("__DirectiveLocation")))), NoArgs),
+                         args |-> Fld(NN(Ls(NN(Ty("__InputValue")))), NoArgs), isRepeatable |-> Fld(NN(Ty("Boolean")), NoArgs)], {}),
+   __TypeKind |-> EnumT({"SCALAR", "OBJECT", "INTERFACE", "UNION", "ENUM", "INPUT_OBJECT", "LIST", "NON_NULL"}),
+   __DirectiveLocation |-> EnumT({"QUERY", "MUTATION", "SUBSCRIPTION", "FIELD", "FRAGMENT_DEFINITION", "FRAGMENT_SPREAD", "INLINE_FRAGMENT",
+                                  "VARIABLE_DEFINITION", "SCHEMA", "SCALAR", "OBJECT", "FIELD_DEFINITION", "ARGUMENT_DEFINITION", "INTERFACE",
+                                  "UNION", "ENUM", "ENUM_VALUE", "INPUT_OBJECT", "INPUT_FIELD_DEFINITION"})]
+IntroTypeNames == DOMAIN IntroTypes
+WithIntro(raw) == [raw EXCEPT !.types = IntroTypes @@ @]
+UserTypes(S) == (DOMAIN S.types) \ IntroTypeNames
+SchemaField == Fld(NN(Ty("__Schema")), NoArgs)
+TypeField == Fld(Ty("__Type"), [name |-> Arg(NN(Ty("String")), Absent)])
+
+----------------------------------------------------------------------------
 \* lookups (total: unknown names give the *None* records, never a TLC error)
 HasType(S, n)   == n \in BuiltinScalars \/ n \in DOMAIN S.types
 TypeKind(S, n)  == IF n \in BuiltinScalars THEN "SCALAR"
@@ -90,9 +122,11 @@ IsObjectType(S, n) == TypeKind(S, n) = "OBJECT"
 NoField == [type |-> Ty(""), args |-> NoArgs, def |-> Absent]
 TypenameField == Fld(NN(Ty("String")), NoArgs)
 
-\* field definition of an output type, incl. the __typename meta field (4.4); __schema/__type are not modelled
+\* field definition of an output type, incl. the meta fields __typename (4.4) and, on the query root type, __schema / __type (4.1)
 FieldDef(S, T, f) ==
   IF f = "__typename" /\ IsComposite(S, T) THEN TypenameField
+  ELSE IF f = "__schema" /\ T = S.query THEN SchemaField
+  ELSE IF f = "__type" /\ T = S.query THEN TypeField
   ELSE IF T \in DOMAIN S.types /\ S.types[T].kind \in {"OBJECT", "INTERFACE"} /\ f \in DOMAIN S.types[T].fields
        THEN S.types[T].fields[f]
        ELSE NoField
@@ -126,7 +160,7 @@ RootType(S, op) == CASE op = "query" -> S.query [] op = "mutation" -> S.mutation
 \* Catalog.
 
 \* ---- S1 "pets": objects, interface, union, enum, input object, arguments with defaults, custom directives
-S1 ==
+S1 == WithIntro(
   [id |-> "pets", query |-> "Query", mutation |-> "Mutation", subscription |-> "Subscription",
    order |-> <<"Dog", "Cat", "Human", "Query", "Mutation", "Subscription", "Ant">>,
    types |-> [
@@ -181,10 +215,10 @@ S1 ==
      rep  |-> DirD({"FIELD"}, [n |-> Arg(Ty("Int"), Absent)], TRUE),
      opq  |-> DirD({"QUERY", "SUBSCRIPTION"}, [x |-> Arg(Ty("Int"), Absent)], FALSE),
      fdef |-> DirD({"FRAGMENT_DEFINITION"}, NoArgs, FALSE),
-     vdef |-> DirD({"VARIABLE_DEFINITION"}, [m |-> Arg(Ty("String"), Absent)], FALSE)]]
+     vdef |-> DirD({"VARIABLE_DEFINITION"}, [m |-> Arg(Ty("String"), Absent)], FALSE)]])
 
 \* ---- S2 "args": every input type shape: scalars, enum, lists (nested, non-null), input objects, custom scalar
-S2 ==
+S2 == WithIntro(
   [id |-> "args", query |-> "Query", mutation |-> "", subscription |-> "",
    order |-> <<"T", "Query">>,
    types |-> [
@@ -220,11 +254,11 @@ S2 ==
                      t   |-> Fld(Ty("T"), NoArgs)], {})],
    directives |-> [
      tag |-> DirD({"FIELD", "FRAGMENT_SPREAD", "INLINE_FRAGMENT"}, [label |-> Arg(NN(Ty("String")), Absent), prio |-> Arg(Ty("Int"), VI(0))], FALSE),
-     lim |-> DirD({"FIELD", "QUERY"}, [by |-> Arg(Ty("In"), Absent), xs |-> Arg(Ls(Ty("Int")), Absent)], FALSE)]]
+     lim |-> DirD({"FIELD", "QUERY"}, [by |-> Arg(Ty("In"), Absent), xs |-> Arg(Ls(Ty("Int")), Absent)], FALSE)]])
 
 \* ---- S3 "nest": list / non-null nesting for null propagation, interface implementing an interface,
 \*                 same field with different nullability in two implementations (url)
-S3 ==
+S3 == WithIntro(
   [id |-> "nest", query |-> "Query", mutation |-> "", subscription |-> "",
    order |-> <<"Img", "Doc", "Page", "Query">>,
    types |-> [
@@ -243,7 +277,7 @@ S3 ==
                      doc |-> Fld(NN(Ty("Doc")), NoArgs),
                      maybe |-> Fld(Ty("Doc"), NoArgs),
                      grid |-> Fld(Ls(Ls(Ty("Img"))), NoArgs)], {})],
-   directives |-> <<>>]
+   directives |-> <<>>])
 
 Catalog == <<S1, S2, S3>>
 CatalogIds == {Catalog[i].id : i \in 1..Len(Catalog)}
@@ -276,7 +310,8 @@ ImplementsOK(S, T, I) ==
 
 SchemaOK(S) ==
   /\ TypeKind(S, S.query) = "OBJECT"
-  /\ {S.order[i] : i \in DOMAIN S.order} = ObjectTypes(S) /\ Len(S.order) = Cardinality(ObjectTypes(S))
+  /\ {S.order[i] : i \in DOMAIN S.order} = ObjectTypes(S) \ IntroTypeNames /\ Len(S.order) = Cardinality(ObjectTypes(S) \ IntroTypeNames)
+  /\ IntroTypeNames \subseteq DOMAIN S.types
   /\ S.mutation = "" \/ TypeKind(S, S.mutation) = "OBJECT"
   /\ S.subscription = "" \/ TypeKind(S, S.subscription) = "OBJECT"
   /\ (DOMAIN S.types) \cap BuiltinScalars = {}
